@@ -7,7 +7,7 @@ from . import strings
 
 WS_SEPS = [" ", "  ", "\t", "\n", "\r\n", "\n\n   ", " \f ", "\n\t", "   \n  ", "\r\n\r\n", " \t "]
 COMMENT_TEXTS = ["c", "a comment", "END", "LAYER NAME \"x\"", "\"unbalanced", "it's", "# nested #", "x /* y",
-                 "TYPE polygon", "ünï", "", "-- 100% --"]
+                 "TYPE polygon", "ünï", "", "-- 100% --", "page\x0cbreak", "ls\u2028x", "nel\x85y {z}", "v\x0bt"]
 CCOMMENT_TEXTS = ["c", " a comment ", " END ", "multi\nline", " \"q\" ", "*", " # hash ", "\n", " LAYER\n NAME 'x'\nEND "]
 
 
